@@ -462,7 +462,7 @@ def _potdef_cached(depth, has_custom, has_table, max_ranges, leaf_names, allow_s
     first_marker = st.sampled_from([None, None, None, ">", ">="])
     marker = st.sampled_from([">", ">="])
     s_gt = st.sampled_from([0, 0.0, 0.5, 1.0])
-    s_ge = st.sampled_from([0.25, 0.5, 1.0])
+    s_ge = st.sampled_from([0, 0, 0.25, 0.5, 1.0])    # ">=0": the only way a potable function is non-zero AT r = 0 (row 0 of EAM tables)
     gap = fl(0.2, 12.0, sig=3)
     shift = number(-1.5, 3)
     simple_pow = st.tuples(_positive_leaf(), _small_exponent_leaf()).map(
@@ -507,7 +507,12 @@ def _potdef_cached(depth, has_custom, has_table, max_ranges, leaf_names, allow_s
             if first_m is not None:
                 first_s = draw(s_gt) if first_m == ">" else draw(s_ge)
             base = 0.0 if first_s is None else float(first_s)
-            rgs = [{"m": first_m, "s": first_s, "body": draw(simple_s)}]
+            body0 = draw(simple_s)
+            if first_m == ">=" and first_s == 0 and not (body0.get("k") == "form" and body0.get("name") in REGULAR):
+                # only functions that are regular at the origin are asked for their value there
+                first_s = 0.25
+                base = 0.25
+            rgs = [{"m": first_m, "s": first_s, "body": body0}]
             starts = sorted(set(round(base + v, 3) for v in
                                 draw(st.lists(gap, min_size=n - 1, max_size=n - 1))))
             rest = []
@@ -684,6 +689,10 @@ def eam_model(draw, kind="eam", n_min=1, n_max=4, depth=1, pycallables=False, ma
             pd = vary(draw, draw(st.sampled_from(pool)), body0)
         else:
             pd = draw(st.one_of(p0, p0, pdraw))
+        b0 = pd["ranges"][0]["body"]
+        if b0.get("k") == "form" and b0.get("name") in REGULAR and pd["ranges"][0]["m"] is None and draw(st.integers(0, 3)) == 0:
+            # defined from (and including) the origin: row 0 of the table then holds f(0), not 0
+            pd["ranges"][0]["m"], pd["ranges"][0]["s"] = ">=", 0
         pool.append(pd)
         return pd
     m = {"kind": kind, "env": {"custom": customs, "table": []}, "elements": els}
